@@ -283,10 +283,10 @@ def check_unsnake(ctx, top, lists):
                     if cond is None:
                         raise AnalysisError("unsnake: re-indexing of %s outside the recognised idioms: %s" % (other, ast.unparse(s)[:80]))
                     try:
-                        f = pred.TRUE if isinstance(cond, ast.Constant) and cond.value is True else pred.nf(cond, lin_env({elem: r_, moved: b_}))
+                        f = pred.TRUE if isinstance(cond, ast.Constant) and cond.value is True else pred.nf(cond, lin_env({elem: r_, moved: b_, cupv: Lin.var("cup"), capv: Lin.var("cap")}))
                     except Exception as e:
                         raise AnalysisError("unsnake: re-indexing test outside the recognised idioms: %s" % e)
-                    shift_ok = pred.equivalent(f, want_cond, Facts(free=["r", "b"])) and delta == want_delta
+                    shift_ok = pred.equivalent(f, want_cond, Facts(free=["r", "b", "cup", "cap"])) and delta == want_delta
                     shown = ["%s shifted by %+d when %s" % (other, delta, pred.show(f))]
                 ctx.ob("R07.3", cname + ":re-indexing", shift_ok, found=shown or "the indices recorded in %s are not updated" % other,
                        required="%s[k] %s 1 exactly for the boxes between the moved box and %s (%s)" % (other, "-=" if want_delta < 0 else "+=", tgt, pred.show(want_cond)), mod=RW, node=lp,
